@@ -9,8 +9,8 @@ BOUNDS = {
     'quick': 'W in {1, 2} worker threads, upstream length n symbolic in [0, 3], channel capacity = W, '
              'every interleaving of workers and consumer at the visible operations (lock+pull+unlock+compute, turn load, '
              'send, turn store, sender drop) within K = 4n + 3W + n + 1 scheduler steps (the exact progress bound); W = 0 '
-             '(unthreaded branch) by native differential runs only',
-    'thorough': 'additionally W=3 with n <= 2 and n <= 3',
+             '(unthreaded branch): Pipe::new / Pipe::next interpreted by MIRSE on n in [0, 4] items with symbolic payloads',
+    'thorough': 'additionally W=3 with n <= 2 and n <= 3; unthreaded branch n in [0, 7]',
 }
 OUTSIDE = ['more workers / longer inputs', 'memory orderings weaker than SeqCst (reported as outside the model)',
            'std Mutex / mpsc internals (fixed semantics = trusted base)', 'OS scheduler fairness (assumed for termination)']
@@ -19,6 +19,9 @@ ASSUMPTIONS = ['sync primitive semantics: Mutex::lock enabled iff free; guard dr
                'dropping the closure environment drops its sender; recv returns None when the queue is empty and no sender is left',
                'operations that touch only thread-local or mutex-protected state are fused with the preceding visible operation',
                'the processing function is an arbitrary total function (identity on item indices) with arbitrary delay']
+
+
+SEQ_CLAIMS = None     # every claim of the unthreaded sub-harness belongs to C05 except the lookahead one (C09)
 
 
 def configs(tier):
@@ -116,6 +119,10 @@ def custom_main(tier, seed, mir, repo, get_native, procs):
         incon.append(str(e))
     results = run_jobs(jobs_for(tier, mir, repo, facts), procs)
     native = get_native()
+    # W = 0: the unthreaded branch of Pipe::new / Pipe::next is interpreted by MIRSE (lazy sequential map)
+    seq = run_unthreaded(tier, mir, repo, native, seed, procs, PROPERTY, SEQ_CLAIMS)
+    violations += seq['violations']
+    incon += seq['incon']
     nval = 0
     replays = []
     for r in sorted(results, key=lambda r: r['name']):
@@ -151,5 +158,6 @@ def custom_main(tier, seed, mir, repo, get_native, procs):
         'solver_seconds': round(sum(r.get('solve_s', 0) for r in results), 1), 'solver_queries': len(results),
         'bounds': BOUNDS[tier], 'outside_bounds': OUTSIDE, 'pipe_new_facts': {k: v for k, v in facts.items() if k != 'worker'},
         'inconclusive_reasons': incon[:6], 'exhaustive': not incon and not violations,
+        'unthreaded_branch': seq['coverage'],
     }
     return {'violations': violations, 'incon': incon, 'coverage': cov, 'lines': lines, 'assumptions': ASSUMPTIONS}
